@@ -859,6 +859,18 @@ func (x *Exec) loopHeader(st *State, fr *Frame, h *ssa.BasicBlock, ord int, phis
 			fr.env[phi.Comment] = envEntry{v: nv}
 		}
 	}
+	// map iterators advanced inside the loop: after an arbitrary number of iterations an arbitrary set of keys
+	// has been visited
+	for _, b := range li.body[h] {
+		for _, instr := range b.Instrs {
+			if nx, ok := instr.(*ssa.Next); ok && !nx.IsString {
+				if it, ok := fr.regs[nx.Iter].(IterV); ok && it.MT != nil {
+					it.Visited = x.sym.fresh("visited", it.Visited.Sort)
+					fr.regs[nx.Iter] = it
+				}
+			}
+		}
+	}
 	if spec != nil && spec.HasMod {
 		x.havocItems(st, sc, spec.Modifies)
 	} else {
@@ -2074,6 +2086,9 @@ func (x *Exec) convert(st *State, v Value, to types.Type) Value {
 		sv := x.freshValue(st, "bytes", to).(SliceV)
 		if tsl := to.Underlying().(*types.Slice); tsl.Elem().Underlying().(*types.Basic).Kind() == types.Byte {
 			st.assume(eq(sv.Len, mk(SInt, "strlen", v.(Scalar).T)))
+			// the fresh slice holds the string's bytes: converting it back (while unmodified) gives the string
+			x.sym.declareFun("bytes2str", []Sort{SInt, SInt, SInt}, SStr)
+			st.assume(eq(mk(SStr, "bytes2str", sv.Arr, sv.Off, sv.Len), v.(Scalar).T))
 		}
 		return sv
 	}
